@@ -161,7 +161,7 @@ func runWrappers(c *fw.Ctx) {
 				xs = append(xs, x)
 			}
 		}
-		xs = append(xs, 0, math.Nextafter(0, 1), r.LogUniform(1e-12, 1e-3), -r.LogUniform(1e-6, 1e3), -pc, -pc/2, -pc-r.Float64())
+		xs = append(xs, 0, minNormal, r.LogUniform(1e-12, 1e-3), -r.LogUniform(1e-6, 1e3), -pc, -pc/2, -pc-r.Float64())
 		ev := map[string]any{"k": "wrap", "kind": "logtransform", "pclass": pcl, "c": hx(pc), "base": baseDesc(name, p)}
 		sig := fmt.Sprintf("C14|logtransform(%s)|%s", name, pcl)
 		wrapEval(cs, ev, sig, xs, func(t ad.ScalarType) (st.ScalarPdf, error) {
